@@ -31,6 +31,10 @@ def scenario(rng, i):
         if skew:
             steps.append({"op": "clock", "t": "20%02d-%02d-%02d %02d:%02d:00" % (rng.randrange(19, 30), rng.randrange(1, 13), rng.randrange(1, 28), rng.randrange(0, 24), rng.randrange(0, 60))})
         st = {"op": "create", "fmts": gen.gen_fmts(rng, kmax=5)}
+        if i % 3 == 1:
+            # creator info in any combination (an author without a name included)
+            fields = {"author_name": "Ann B.", "author_email": "ann@example.org", "author_phone": "+1 555 0100", "author_role": "DIT", "location": "Stage 4", "comment": "day 2"}
+            st["creator"] = {f: fields[f] for f in rng.sample(sorted(fields), rng.choice([1, 1, 2, 3, 6]))}
         files = gen.all_files(cur)
         if rng.random() < 0.25:
             st["sf"] = rng.sample(files, 1)
@@ -40,6 +44,8 @@ def scenario(rng, i):
             steps.append(e)
             cur = world.tree_apply(cur, e)
     steps.append({"op": "info"})
+    if i % 3 == 1:
+        steps.append({"op": "info", "verbose": True})
     for d in rng.sample(dirs, min(len(dirs), 2)):
         steps.append({"op": "info", "root": d})
     files = gen.all_files(cur)
@@ -47,6 +53,8 @@ def scenario(rng, i):
         st = {"op": "infosf", "file": f}
         if rng.random() < 0.3:
             st["root"] = ""
+        if i % 3 == 1 and rng.random() < 0.5:
+            st["verbose"] = True
         steps.append(st)
     return {"tree": tree, "steps": steps}
 
